@@ -180,7 +180,7 @@ class Decision(Suite):
         from ..stdio_h import debug_logging
 
         for n, c in enumerate(cases):
-            restore = debug_logging() if n % 4 == 3 else None  # a host with DEBUG logging: the f-string / warning branches are live
+            restore = debug_logging(n % 8 == 3) if n % 4 == 3 else None  # a host with DEBUG logging: the f-string / warning branches are live
             try:
                 out.append(self._impl_one(c, supports_batching, PV, SUPPORTED_VERSIONS))
             finally:
